@@ -139,6 +139,12 @@ func runDirectCase(o *hx.Out, k int, r *prng.R, u *universe, fixed int) {
 	} else if r.Chance(1, 10) {
 		useSigner = true
 	}
+	if fixed >= 4 {
+		// the entry script's hash comes back deeper in the chain (see below): CalledByEntry signers and rules
+		signers = []signer{{account: smallHash(0xa1), scopes: 0x01},
+			{account: smallHash(0xa2), scopes: 0x40, rules: []rule{{action: 1, c: &cond{kind: kEntry}}}}}
+		noTx, useSigner = false, false
+	}
 	// the interop context
 	var tx *transaction.Transaction
 	usTok, txTok := "-", "-"
@@ -228,7 +234,51 @@ func runDirectCase(o *hx.Out, k int, r *prng.R, u *universe, fixed int) {
 		return false
 	}
 
-	if fixed >= 0 {
+	if fixed >= 4 {
+		// entry script S -> contract -> a dynamic script that is a byte-for-byte copy of S (or a contract loaded with
+		// S's hash as explicit caller) -> contract: the innermost context's calling hash EQUALS the entry hash,
+		// but it is four loads deep — IsCalledByEntry is about script contexts, not script hashes
+		sc := retScript(7)
+		hS := hash.Hash160(sc)
+		v.LoadWithFlags(sc, callflag.All)
+		add("LW " + hTok(hS) + " 15")
+		push(frame{hash: hS, rs: true})
+		observe()
+		v.LoadScriptWithHash(retScript(1), u.hashes[0], callflag.All)
+		add(fmt.Sprintf("LH %s %s 15", hTok(hash.Hash160(retScript(1))), hTok(u.hashes[0])))
+		push(frame{hash: u.hashes[0], caller: hS, rs: true})
+		observe()
+		if fixed == 4 {
+			v.LoadDynamicScript(sc, callflag.ReadOnly)
+			add("LD " + hTok(hS) + " 5")
+			push(frame{hash: hS, caller: u.hashes[0], rs: true})
+			observe()
+			v.LoadScriptWithHash(retScript(2), u.hashes[1], callflag.ReadOnly)
+			add(fmt.Sprintf("LH %s %s 5", hTok(hash.Hash160(retScript(2))), hTok(u.hashes[1])))
+			push(frame{hash: u.hashes[1], caller: hS, rs: true})
+		} else {
+			v.LoadNEFMethod(&nef.File{Script: retScript(2)}, &manifest.Manifest{}, hS, u.hashes[1], callflag.All, true, 0, -1, nil, nil, false)
+			add(fmt.Sprintf("LN %s %s %s 15 0", hTok(hash.Hash160(retScript(2))), hTok(hS), hTok(u.hashes[1])))
+			push(frame{hash: u.hashes[1], caller: hS, rs: true})
+		}
+		observe()
+		for _, h := range []util.Uint160{smallHash(0xa1), smallHash(0xa2)} {
+			if stopped {
+				break
+			}
+			add("CH " + hTok(h))
+			res, err := runtime.CheckHashedWitness(ic, h)
+			ob := fmt.Sprint(res)
+			if err != nil {
+				ob = classifyErr(err)
+				stopped = true
+			}
+			obs = append(obs, ob)
+			line := strings.Join(toks, " ")
+			judge(o, k, "direct", u, shadow[len(shadow)-1].env(contracts), signers, h, ob, func() string { return line })
+		}
+		o.Count(fmt.Sprintf("direct:fixed-entry-hash-returns-%d", fixed))
+	} else if fixed >= 0 {
 		// the invocation stack limit: 1024 contexts are fine, one more faults (CALL or load)
 		sc := retScript(1)
 		v.LoadWithFlags(sc, callflag.All)
